@@ -493,16 +493,40 @@ def t2(prog):
                 raise Broken("push site not found in CFG of %s" % f["q"])
             pn = pn[0]
 
+            def is_seen_insert(b):
+                b = unwrap(b)
+                return isinstance(b, dict) and b.get("k") == "call" and b.get("fn") == "insert" and \
+                    _state_field(b.get("obj"), stypes) == ("op_tr_closure::state", seen_f)
+            # locals holding the insertion result (the pair) or its `.second`, never reassigned afterwards
+            assigned = {unwrap(y["lhs"]).get("id") for y in walk_nolambda(f["body"]) if y.get("k") == "asg" and isinstance(unwrap(y["lhs"]), dict)}
+            pair_ids, flag_ids = set(), set()
+            for y in walk_nolambda(f["body"]):
+                if y.get("k") != "decl":
+                    continue
+                for v in y["vars"]:
+                    i = unwrap(v.get("init")) if v.get("init") is not None else None
+                    while isinstance(i, dict) and i.get("k") == "ctor" and len(i.get("a", [])) == 1:
+                        i = unwrap(i["a"][0])
+                    if v["id"] in assigned or not isinstance(i, dict):
+                        continue
+                    if is_seen_insert(i):
+                        pair_ids.add(v["id"])
+                    elif i.get("k") == "mem" and i["n"] == "second" and is_seen_insert(i["b"]):
+                        flag_ids.add(v["id"])
+
             def guard_edge(n, lab):
                 if n.kind != "cond" or lab is not True:
                     return False
                 e = unwrap(n.ast)
-                # m_seen.insert(x).second
-                if isinstance(e, dict) and e.get("k") == "mem" and e["n"] == "second":
+                if not isinstance(e, dict):
+                    return False
+                # m_seen.insert(x).second, directly or through a local that holds the result
+                if e.get("k") == "mem" and e["n"] == "second":
                     b = unwrap(e["b"])
-                    if isinstance(b, dict) and b.get("k") == "call" and b.get("fn") == "insert":
-                        return _state_field(b.get("obj"), stypes) == ("op_tr_closure::state", seen_f)
-                return False
+                    if is_seen_insert(b):
+                        return True
+                    return isinstance(b, dict) and b.get("k") == "ref" and b.get("id") in pair_ids
+                return e.get("k") == "ref" and e.get("id") in flag_ids
             reach = g.reachable(edge_ok=lambda n, t, lab: not guard_edge(n, lab))
             key = "%s@%s" % (f["q"], "push")
             inst.append((key, {"fn": f["fid"], "push": px.get("l"), "guard": "%s.insert(..).second" % seen_f}))
